@@ -144,6 +144,17 @@ def ownership_rule(ctx, g):
               "lifetime extension of Arc::as_ref(&_data) (&[u8] -> &'static [u8])",
               "the transmute does not extend exactly `Arc::as_ref(&<Arc<[u8]> local>)` from &[u8] to &[u8] "
               "(types %s)" % gargs, line_of(tm[0]))
+    if src_local is not None:
+        b = fnew.binds.get(src_local["id"])
+        dt = fnew.term(b["val"][1]) if b and b["val"][0] == "node" else ("none",)
+        sp_ = ("param", param_index(fnew, "seq"))
+        okb = contains(dt, lambda s_: s_ == sp_) and all(
+            s_[0] != "call" or s_[1].split("::")[-1] in ("into_boxed_str", "into_boxed_bytes", "into_bytes", "as_bytes", "to_vec",
+                                                         "into_boxed_slice", "to_owned", "clone", "into", "from", "new")
+            for s_ in subterms(dt)) and not contains(dt, lambda s_: s_[0] in ("closure", "cast"))
+        ctx.check("C13.O", "%s:bytes_are_utf8" % short, okb, "the iterator reads exactly the UTF-8 bytes of the Python string",
+                  "the backing buffer is built as `%s`, not as the string's UTF-8 bytes: non-ASCII characters would be read as "
+                  "other bytes (e.g. truncated code points that look like bases)" % show(dt), line_of(src_local))
     lit = struct_literal(fnew, g["adt"])
     if lit is None or src_local is None:
         return
@@ -301,3 +312,15 @@ def profile_rule(ctx):
                     hits.append(os.path.relpath(os.path.join(dp, f), root))
     ctx.check("C13.P", "profiles:no_panic_abort", not hits and n >= 10, "no manifest/profile sets panic = \"abort\" (%d manifests)" % n,
               "panic=abort configured in %s: a Rust panic would kill the Python interpreter instead of raising" % hits, None)
+
+
+
+def kmer_binding_rules(ctx):
+    """the Python k-mer iterator is the core iterator over the string's bytes (delegation + ownership)"""
+    delegation_rule(ctx, PYK)
+    ownership_rule(ctx, PYK)
+
+
+def minimiser_binding_rules(ctx):
+    delegation_rule(ctx, PYM)
+    ownership_rule(ctx, PYM)
